@@ -22,6 +22,8 @@ type Entry struct {
 	L string `json:"l"`
 }
 
+const maxLog = 4 << 20
+
 // Src is a choice stream.
 type Src struct {
 	s        [4]uint64
@@ -115,6 +117,11 @@ func (c *Src) Choose(n int, label string) int {
 		v = int(c.next() % uint64(n))
 	}
 	if !c.noLog {
+		if len(c.Log) >= maxLog {
+			// a loop of the harness that only a random draw can end (under replay all remaining
+			// draws may be 0): fail loudly instead of eating the machine's memory
+			panic("choice: more than 4 million decisions in one run (harness loop that does not terminate under replay?), last label " + label)
+		}
 		c.Log = append(c.Log, Entry{V: v, N: n, L: label})
 	}
 	return v
